@@ -8,6 +8,15 @@
 // Families: S structural histories (append / writeCF / rollback) on small
 // chains; U at-tip fetch; R checkpoint conflict resolution and C checkpointed
 // fetch on a 3300-block chain; A tables of the pure functions.
+//
+// VerifyBasicBlockFilter is under test, not trusted: every block goes to Coq
+// as an abstract block (scripts classified from their raw bytes) and every
+// filter as the set of the block's scripts it matches (gcs.Filter.Match per
+// script); the model computes the verdict itself, the implementation's
+// verdict is only compared with it, and the monitors decide "refutable from
+// the block" by the BIP-158 definition. Blocks contain unparseable,
+// oversized, empty, OP_RETURN-prefixed, taproot and non-standard output
+// scripts (coinbase and other transactions) and all kinds of witness inputs.
 package main
 
 import (
@@ -1405,6 +1414,9 @@ func main() {
 				rep.Histogram["cp_mode:"+pz.CpMode]++
 			}
 		}
+		for _, fo := range rs.sp.Force {
+			rep.Histogram["force:"+fo.Kind]++
+		}
 		for _, op := range rs.sp.Ops {
 			rep.Histogram["sop:"+op.Kind+":"+op.Mode]++
 		}
@@ -1433,7 +1445,7 @@ func main() {
 	}
 	rep.Evaluations = len(results) + len(aux)
 	rep.DistinctNontrivial = len(distinct)
-	rep.Rule = "S: histories of block appends / writeCFHeadersMsg (valid and malformed messages) / rollBackToHeight on real stores, non-trivial = contains an append, a successful write and a rollback; U/R: getUncheckpointedCFHeaders / resolveConflict with 2-6 scripted peers, real filters and doctored variants, non-trivial = at least one peer deviates (lie in a filter hash, in a checkpoint, bad answer, silence); C: getCheckpointedCFHeaders with scripted arrivals, non-trivial = a peer was banned or the first interval is partial; distinct = distinct signature (family, sizes, sorted lie kinds per peer, outcome class)"
+	rep.Rule = "S: histories of block appends / writeCFHeadersMsg (valid and malformed messages) / rollBackToHeight on real stores, non-trivial = contains an append, a successful write and a rollback; U/R: getUncheckpointedCFHeaders / resolveConflict with 2-6 scripted peers, blocks with unusual output scripts (unparseable, oversized, empty, OP_RETURN-prefixed, coinbase) and witness inputs, real filters and doctored variants (omitting an ordinary / unusual / coinbase / spent script, extra element, old-style, other key), duels of 1-2 honest against 2-4 liars at one height, non-trivial = at least one peer deviates (lie in a filter hash, in a checkpoint, bad answer, silence); C: getCheckpointedCFHeaders with scripted arrivals, non-trivial = a peer was banned or the first interval is partial; distinct = distinct signature (family, sizes, sorted lie kinds per peer, outcome class)"
 	for i := 0; i < len(results) && len(rep.Samples) < 3; i += 1 + len(results)/3 {
 		rep.Samples = append(rep.Samples, results[i].sp)
 	}
